@@ -49,7 +49,7 @@ class KeOpsLinearOperator(LinearOperator):
         return torch.Size(self.covar_mat.shape)
 
     def _transpose_nonbatch(self: Float[LinearOperator, "*batch M N"]) -> Float[LinearOperator, "*batch N M"]:
-        return KeOpsLinearOperator(self.x2, self.x1, self.covar_func)
+        return KeOpsLinearOperator(self.x2, self.x1, self.covar_func, **self.params)
 
     def _get_indices(self, row_index: IndexType, col_index: IndexType, *batch_indices: IndexType) -> torch.Tensor:
         x1_ = self.x1[(*batch_indices, row_index)]
